@@ -53,7 +53,8 @@ pub const PROGRAMS: &[&str] = &[
 ];
 
 pub const RULE_NAMES: &[&str] = &["Expr", "term_2", "A", "_x", "R9z", "Stmt", "b", "Zed"];
-pub const TOKEN_NAMES_QUOTED: &[&str] = &["+", "é", "a b", "漢", "x\"y", "it's", "//", "/*", "%", "{", "|", ";", ":", "->", "*/", "}"];
+pub const TOKEN_NAMES_QUOTED: &[&str] =
+    &["+", "é", "a b", "漢", "x\"y", "it's", "//", "/*", "%", "{", "|", ";", ":", "->", "*/", "}", "'", "\"", "'q", "\"z"];
 pub const TOKEN_NAMES_IDENT: &[&str] = &["INT", "t0", "_id", "While", "x9", "ID"];
 
 /// Replace the generator's plain names by varied ones and add optional declarations.
@@ -307,8 +308,12 @@ pub fn render_varied(ch: &mut Choices, ag: &AG, kind: YKind) -> (String, YLayout
 
     // spelling of a token occurrence; returns (start,end) of the name without quotes
     fn spell(w: &mut W, name: &str, bare_ok: bool, allow_bare: bool) -> (usize, usize) {
-        let has_s = name.contains('\'');
-        let has_d = name.contains('"');
+        // a quoted name ends at the first delimiter after its first character, so a name may
+        // begin with its own delimiter (`'''` is the token `'`, `''q'` the token `'q`) but not
+        // contain it later
+        let rest = &name[name.chars().next().map_or(0, |c| c.len_utf8())..];
+        let has_s = rest.contains('\'');
+        let has_d = rest.contains('"');
         let style = if allow_bare && bare_ok && w.ch.chance(1, 2) {
             2
         } else if has_s {
@@ -318,6 +323,9 @@ pub fn render_varied(ch: &mut Choices, ag: &AG, kind: YKind) -> (String, YLayout
         } else {
             w.ch.pick(2)
         };
+        if style != 2 && (name.starts_with('\'') && style == 0 || name.starts_with('"') && style == 1) {
+            w.feat("token-name-begins-with-its-delimiter");
+        }
         match style {
             2 => {
                 let st = w.s.len();
